@@ -165,7 +165,7 @@ def c06(tier):
                 'completely, arity 2 %s, arities 3-5 by stride; circular arguments only for the procedures that must cope with '
                 'them; each call is executed with crash/hang isolation and followed by a probe evaluation; plus %d generated '
                 'texts (random Unicode, token soup, mutated programs, nesting to 64) through scan/parse/eval_text/sliced '
-                'evaluation; distinct_nontrivial = number of distinct calls executed' % ('every 13th' if q else 'completely', ntext),
+                'evaluation; distinct_nontrivial = number of distinct calls executed' % ('every 3rd' if q else 'completely', ntext),
         'samples': samples or [{'call': '(car zp1)'}], 'states': states, 'transitions': states,
         'traces_validated_against_impl': ncalls + ntext, 'procedures': nprocs, 'palette': 32,
         'outcome_classes_observed': by_class, 'outcomes_more_lenient_than_r7rs_prescribes(not_violations)': lenient, 'allowed_sets_required': by_allow, 'tiers': tiers, 'texts': ntext,
